@@ -414,11 +414,13 @@ pub fn dispatch_prop(toks: &[&str]) -> Option<String> {
         ["bufreader", cap, h] => Some(prop_bufreader(cap.parse().ok()?, &unhex(h))),
         ["fromstr", h] => {
             let b = unhex(h);
-            Some(prop_same("from_str", via_str(&b), &b))
+            let r = prop_same("from_str", via_str(&b), &b);
+            Some(if r == "OK" { entry_points(&b).map_or(r, |d| format!("FAIL {d}")) } else { r })
         }
         ["frompath", h] => {
             let b = unhex(h);
-            Some(prop_same("from_path", Some(via_path(&b)), &b))
+            let r = prop_same("from_path", Some(via_path(&b)), &b);
+            Some(if r == "OK" { entry_points(&b).map_or(r, |d| format!("FAIL {d}")) } else { r })
         }
         ["faultsched", evs @ ..] => Some(prop_fault(evs)),
         ["pathfault", what] => Some(prop_pathfault(what)),
@@ -426,6 +428,37 @@ pub fn dispatch_prop(toks: &[&str]) -> Option<String> {
         ["enc4", h] => Some(prop_enc4(&unhex(h))),
         _ => None,
     }
+}
+
+/// every public way of handing the same bytes to the full decoder gives the same `Beatmap`: the generic functions, the
+/// inherent `Beatmap::from_bytes` / `from_path` wrappers, `str::parse` (`FromStr`) and `Beatmap::decode` on a reader.
+fn entry_points(bytes: &[u8]) -> Option<String> {
+    use rosu_map::Beatmap;
+    let want = rosu_map::from_bytes::<Beatmap>(bytes).ok();
+    let mut got: Vec<(&str, Option<Beatmap>)> = vec![
+        ("Beatmap::from_bytes", Beatmap::from_bytes(bytes).ok()),
+        ("Beatmap::decode(&[u8])", Beatmap::decode(bytes).ok()),
+        ("Beatmap::decode(Cursor)", Beatmap::decode(std::io::Cursor::new(bytes)).ok()),
+    ];
+    if let Ok(s) = std::str::from_utf8(bytes) {
+        got.push(("str::parse::<Beatmap>", s.parse::<Beatmap>().ok()));
+        got.push(("rosu_map::from_str", rosu_map::from_str::<Beatmap>(s).ok()));
+    }
+    let n = COUNTER.fetch_add(1, Ordering::Relaxed);
+    let path = scratch_dir().join(format!("{}-ep{}.osu", std::process::id(), n));
+    if std::fs::write(&path, bytes).is_ok() {
+        got.push(("Beatmap::from_path", Beatmap::from_path(&path).ok()));
+        got.push(("rosu_map::from_path", rosu_map::from_path::<Beatmap>(&path).ok()));
+        let _ = std::fs::remove_file(&path);
+    }
+    // compared through `Debug`: a NaN inside (a degenerate curve) must not make equal maps look different
+    let want = format!("{want:?}");
+    for (name, g) in got {
+        if format!("{g:?}") != want {
+            return Some(format!("delivery-dependent explained=unexplained {name} gives a different Beatmap than rosu_map::from_bytes"));
+        }
+    }
+    None
 }
 
 /// C09 through `from_path`: a file that opens but whose reads fail (`/proc/self/mem` at offset 0: EIO; a directory:
